@@ -19,6 +19,7 @@ schedules, which the harness replays on the real reconciler (`corpus/C20/kf-*.sc
 -/
 import OnosVerif.Proofs.V3Bridge3
 import OnosVerif.Proofs.V3Inv4
+import OnosVerif.Proofs.V3Wedge
 
 namespace OnosVerif.Props.C20
 open OnosVerif.V3
@@ -219,8 +220,6 @@ theorem C20_cursor_applied (seed : Nat) (acts : List Action)
   intro j1 t1 j2 t2 h1 h2 hne hip hip2
   exact (h.two j1 t1 j2 t2 h1 h2 hne).one_ip hip hip2
 
-/-! ## Non-vacuity -/
-
 /-- a schedule that satisfies both preconditions and goes through a failed write, a device
     rejection, an aborted change and a complete rollback (change 3 is then never committed: the
     rollback wedge, `C20_terminates`) -/
@@ -233,6 +232,96 @@ def sampleSchedule : List Action := healthy ++ [
   .rollback 2,
   .tx 2 .valid "ok".toList [] none, .tx 2 .valid "ok".toList [] none,
   .tx 2 .valid "ok".toList [] none, .tx 2 .valid "ok".toList [] none]
+
+/-! ## A failed or aborted apply blocks later changes -/
+
+/-- **Failed blocks later.**  While a change whose apply Failed or was Aborted has not completed the
+    apply of its rollback, no later change is in the apply stage or applied (the second conjunct of
+    the spec's `Order` as evidently intended, and the property's own sentence, for Aborted as
+    well as Failed). -/
+theorem C20_failed_blocks_later_partial (seed : Nat) (acts : List Action)
+    (hs : safeSchedule acts = true) (hf : storeNeverFails (initSys seed) acts = true) :
+    OrderFailedIntended (core (after seed acts)) := by
+  have h := (reachable_inv seed acts hs hf).f
+  intro i ti hi hfa hra
+  rintro ⟨j, tj, hj, hlt, hca⟩
+  have := (h.two i ti j tj hi hj (by omega)).fb hlt hfa hra
+  rcases hca with h1 | h1
+  · exact this.1 h1
+  · exact this.2 h1
+
+/-- the mechanism: while no rollback has had its apply turn, `Applied.Revision` stays below the
+    index of every change whose apply Failed or was Aborted, and the rollback index of every later
+    committed change is at least that index — so `applyChange` aborts it. -/
+theorem C20_failed_keeps_revision_behind (seed : Nat) (acts : List Action)
+    (hs : safeSchedule acts = true) (hf : storeNeverFails (initSys seed) acts = true) :
+    let k := core (after seed acts)
+    (∀ j t, k.tx j = some t → (t.ca = .failed ∨ t.ca = .aborted) → k.cur.aRevision < j ∨ RBA k.cur) ∧
+    (∀ j1 t1 j2 t2, k.tx j1 = some t1 → k.tx j2 = some t2 → j1 < j2 →
+      t1.cc = .complete → t2.cc ≠ .pending → j1 ≤ t2.ridx) := by
+  have h := (reachable_inv seed acts hs hf).f
+  refine ⟨fun j t hj => (h.one j t hj).fb1, ?_⟩
+  intro j1 t1 j2 t2 h1 h2 hlt
+  exact (h.two j1 t1 j2 t2 h1 h2 (by omega)).fb2 hlt
+
+/-- a schedule with two swallowed configuration conflicts: change 1 is aborted and its rollback is
+    committed but not applied, yet change 2 goes to the apply stage -/
+def failedWitness : List Action := healthy ++ [
+  .append (pvA 1), .append (pvA 2),
+  .tx 1 .valid "ok".toList [] none, .tx 1 .valid "ok".toList [] none,
+  .rollback 1,
+  .tx 1 .valid "ok".toList [.conflict] none,
+  .tx 1 .valid "ok".toList [] none, .tx 1 .valid "ok".toList [] none,
+  .tx 2 .valid "ok".toList [] none,
+  .tx 2 .invalid "ok".toList [.conflict] none,
+  .tx 2 .valid "ok".toList [] none, .tx 2 .valid "ok".toList [] none]
+
+/-- **Failed-blocks-later does not hold for all schedules.** -/
+theorem C20_failed_blocks_later_fails_with_swallowed_conflicts :
+    ¬ OrderFailedIntended (core (after 1 failedWitness)) := by
+  intro h
+  have h1 : (core (after 1 failedWitness)).tx 1 =
+      some { phase := .rollback, cc := .complete, ca := .aborted, rc := some .complete, ra := some .pending,
+             cord := 1, rord := 2, ridx := 0 } := by decide
+  have h2 : (core (after 1 failedWitness)).tx 2 =
+      some { phase := .change, cc := .complete, ca := .inProgress, rc := none, ra := none,
+             cord := 2, rord := 0, ridx := 0 } := by decide
+  exact h 1 _ h1 (Or.inr rfl) (by decide) ⟨2, _, h2, by omega, Or.inl rfl⟩
+
+/-! ## Termination -/
+
+/-- **The rollback wedge: not every transaction terminates.**  In every state reachable (without
+    swallowed conflicts) in which `commitRollback` has moved `Committed.Target` below
+    `Committed.Change`, and after *every* continuation of the schedule (appends, rollback requests,
+    reconciles, faults — unboundedly many), `Committed.Change` is where it was and every
+    transaction beyond it is still commit-Pending: no later change is ever committed, let alone
+    applied.  (`commitRollback` sets `Committed.Index` to the rolled-back transaction and leaves
+    `Committed.Target` at the rollback index, so `Index = Target` never holds again.) -/
+theorem C20_terminates_fails_after_rollback (seed : Nat) (acts more : List Action)
+    (hs : safeSchedule (acts ++ more) = true) (hf : storeNeverFails (initSys seed) (acts ++ more) = true)
+    (hm : (core (after seed acts)).cur.cTarget < (core (after seed acts)).cur.cChange) :
+    let k := core (after seed acts)
+    let k' := core (after seed (acts ++ more))
+    k'.cur.cChange = k.cur.cChange ∧ ∀ j t, k'.tx j = some t → k.cur.cChange < j → t.cc = .pending := by
+  rw [safeSchedule_append, Bool.and_eq_true] at hs
+  rw [storeNeverFails_append, Bool.and_eq_true] at hf
+  have hr : CReach (core (after seed acts)) :=
+    run_reach (initSys seed) acts (by rw [core_initSys]; exact CReach.init) hs.1 hf.1
+  have hstar : CStar (core (after seed acts)) (core (after seed (acts ++ more))) := by
+    simp only [after, run_append]
+    exact run_star _ more hs.2 hf.2
+  obtain ⟨h1, h2⟩ := rbmode_star hr hm hstar
+  refine ⟨h2, ?_⟩
+  intro j t hj hlt
+  have hc := CInv.reach (hr.star hstar)
+  exact hc.r_later h1 j t hj (by rw [h2]; exact hlt)
+
+/-- the wedge is reachable: after `sampleSchedule` (a complete rollback of change 2) the commit side
+    is in rollback mode, change 3 is Pending -/
+example : (core (after 1 sampleSchedule)).cur.cTarget < (core (after 1 sampleSchedule)).cur.cChange ∧
+    ((core (after 1 sampleSchedule)).tx 3).map (·.cc) = some .pending := by decide
+
+/-! ## Non-vacuity -/
 
 example : safeSchedule sampleSchedule = true ∧ storeNeverFails (initSys 1) sampleSchedule = true := by decide
 
